@@ -2,8 +2,8 @@
 
 phases (VERIF_PHASES): mc   route lookup (route cache on/off) + limit selection + response compression + FetchPayload step machine, over
                             sequences of identical requests, refine the contract, for both readings of the 4MB default
-                       lead a code model whose default lies outside the interval, and one whose cached route forgets the limit, must
-                            violate the contract (non-vacuity)
+                       lead a code model whose default lies outside the interval, one whose cached route forgets the limit, and one
+                            that exempts a media type (text/event-stream) from the limit must violate the contract (non-vacuity)
                        mbt  every scenario enumerated by TLC run on the real code over sockets (sequences of identical requests on one
                             mux/proxy instance when the route cache is on); TLC evaluates the contract on every recorded exchange
 """
@@ -16,7 +16,8 @@ INVS = ("INVARIANTS ReqLimit RespLimit Oversized413Unforwarded ExactLimitPasses 
 
 def run(ctx):
     ctx.cov["rule"] = ("scenario = (direction, path/pool-level limit, server/proxy-level limit, announcement cl|chunked|close, size class "
-                       "around the effective limit, lying length, route cache on/off (requests), proxy compression on/off (responses)) "
+                       "around the effective limit, lying length, route cache on/off (requests), proxy compression on/off (responses), media type "
+                       "the body is labelled with: none|octet-stream|text|json|event-stream|grpc|multipart) "
                        "enumerated by TLC from specs/ProxyMsgLimit_Gen.tla; a scenario with the route cache on is a sequence of identical "
                        "requests on one mux instance; evaluation = one real exchange over sockets whose recording TLC evaluated against the "
                        "contract; non-trivial = scenarios in which a limit decides (oversized, exactly at the limit, stream, lying length)")
@@ -24,32 +25,73 @@ def run(ctx):
         "'4MB' default read as the interval [4 000 000, 4 194 304]: bodies up to the lower value must pass, above the upper value must be refused",
         "a request with a lying Content-Length (client stops early) is outside the property text: outcome recorded, not judged",
         "explicit limits are scaled 3 -> 3000 bytes, 5 -> 5000 bytes",
+        "media types: scenarios decided by an explicit limit run with all 7 Content-Type classes; megabyte-sized scenarios (default limit) with "
+        "one class each in the quick tier (rotating with the scenario index and the seed), with all in the thorough tier",
         "with proxy compression the limit is applied by the code to the compressed body; the text does not say which size counts: a response "
         "below the limit that may exceed it once compressed (n + n/100 + 100 bytes) is not judged; response bodies are incompressible",
         "a streamed response that breaks off must be visibly broken: incomplete framing, or a gzip-labelled body that is not a complete gzip stream",
     ]
     if ctx.phase("mc"):
         for d in (8, 9):
-            r = ctx.tlc_mc("ProxyMsgLimit", "SPECIFICATION Spec\nCONSTANTS\n  CodeDefault = %d\n  HitLimit = \"kept\"\n" % d + INVS,
+            r = ctx.tlc_mc("ProxyMsgLimit", "SPECIFICATION Spec\nCONSTANTS\n  CodeDefault = %d\n  HitLimit = \"kept\"\n  Exempt = {}\n" % d + INVS,
                            label="FetchPayload + limit selection refine the contract, default=%d" % d, timeout=600, workers=4)
         ctx.log("model checked: %d distinct states" % r.distinct)
     if ctx.phase("lead"):
-        r = ctx.tlc_mc("ProxyMsgLimit", "SPECIFICATION Spec\nCONSTANTS\n  CodeDefault = 20\n  HitLimit = \"kept\"\nINVARIANTS ReqLimit RespLimit\n",
+        r = ctx.tlc_mc("ProxyMsgLimit", "SPECIFICATION Spec\nCONSTANTS\n  CodeDefault = 20\n  HitLimit = \"kept\"\n  Exempt = {}\nINVARIANTS ReqLimit RespLimit\n",
                        expect_ok=False, count=False, label="lead: default outside the interval must violate the contract", timeout=600, workers=4)
         if r.violated not in ("ReqLimit", "RespLimit"):
             ctx.inconclusive("a code model with a wrong default does not violate the contract (vacuous?):\n" + r.out[-1500:])
-        r = ctx.tlc_mc("ProxyMsgLimit", "SPECIFICATION Spec\nCONSTANTS\n  CodeDefault = 8\n  HitLimit = \"lost\"\nINVARIANTS ReqLimit\n",
+        r = ctx.tlc_mc("ProxyMsgLimit", "SPECIFICATION Spec\nCONSTANTS\n  CodeDefault = 8\n  HitLimit = \"lost\"\n  Exempt = {}\nINVARIANTS ReqLimit\n",
                        expect_ok=False, count=False, label="lead: a cached route that forgets the limit must violate the contract", timeout=600, workers=4)
         if r.violated != "ReqLimit":
             ctx.inconclusive("a code model whose cached route forgets the limit does not violate the contract (vacuous?):\n" + r.out[-1500:])
+        r = ctx.tlc_mc("ProxyMsgLimit", "SPECIFICATION Spec\nCONSTANTS\n  CodeDefault = 8\n  HitLimit = \"kept\"\n  Exempt = {\"sse\"}\n"
+                       "INVARIANTS ReqLimit RespLimit\n", expect_ok=False, count=False,
+                       label="lead: a media type exempted from the limit must violate the contract", timeout=600, workers=4)
+        if r.violated not in ("ReqLimit", "RespLimit"):
+            ctx.inconclusive("a code model that exempts a media type from the limit does not violate the contract (vacuous?):\n" + r.out[-1500:])
     if ctx.phase("mbt"):
         _mbt(ctx)
 
 
+def _select(ctx, vecs):
+    """The generator enumerates every scenario with every media type class.  Scenarios whose bodies are small (an explicit
+    limit decides: at most 4 x 5000 bytes) are cheap: where the limit decides the outcome (size class at or above the limit,
+    lying length, stream) they are run with EVERY media type, the others with one (rotating with the seed).  Scenarios with
+    bodies of megabytes (default limit, streams beyond the default) are run with one media type each in the quick tier
+    (rotating, so that every type meets every such scenario over the seeds and all types are met in every run) and with
+    all of them in the thorough tier."""
+    base = {}
+    for v in vecs:
+        k = pm.jdump({x: v[x] for x in v if x not in ("ctype",)})
+        base.setdefault(k, []).append(v)
+    out = []
+    for i, k in enumerate(sorted(base)):
+        vs = sorted(base[k], key=lambda v: v["ctype"])
+        v0 = vs[0]
+        big = v0["level"] == "default" or v0["rel"] == "beyond-default"
+        decisive = v0["stream"] or v0["short"] or v0["rel"] in ("lo", "hi+1", "x4")
+        if (not big and decisive) or (big and not ctx.quick):
+            out += vs
+        else:
+            out.append(vs[(i + ctx.seed) % len(vs)])
+    return out
+
+
 def _mbt(ctx):
     vecs = ctx.tlc_dump("ProxyMsgLimit_Gen", "SPECIFICATION Spec\n", label="limit scenarios", timeout=600, workers=4)
+    nall = len(vecs)
+    vecs = _select(ctx, vecs)
+    ctypes = sorted({v["ctype"] for v in vecs})
+    oversized = {}
+    for v in vecs:
+        if v["dir"] == "resp" and v["rel"] in ("hi+1", "x4") and not v["stream"]:
+            oversized[v["ctype"]] = oversized.get(v["ctype"], 0) + 1
+    if len(ctypes) < 5 or len(oversized) < len(ctypes) or min(oversized.values()) < 5:
+        ctx.inconclusive("media type dimension not exercised: types %s, oversized responses per type %s" % (ctypes, oversized))
+    ctx.log("%d of %d scenario vectors selected; oversized responses per media type: %s" % (len(vecs), nall, pm.jdump(oversized)))
     vecs.sort(key=pm.jdump)
-    reps = 1 if ctx.quick else 4
+    reps = 1 if ctx.quick else 2
     cases = []
     for k in range(reps):
         for v in vecs:
@@ -74,7 +116,7 @@ def _mbt(ctx):
     for e in events:
         c = by_id[e["case"]]
         if c["stream"] or c["short"] or c["rel"] in ("lo", "hi+1", "x4"):
-            ctx.nontrivial({k: c[k] for k in ("dir", "inner", "outer", "enc", "rel", "short", "cache", "comp")})
+            ctx.nontrivial({k: c[k] for k in ("dir", "inner", "outer", "enc", "rel", "short", "cache", "comp", "ctype")})
     for e in events[:3]:
         ctx.sample({"kind": "exchange", "dir": e["dir"], "limits": [e["inner"], e["outer"]], "body": e["w"], "observed": e["o"]})
     drift = 0
@@ -88,16 +130,17 @@ def _mbt(ctx):
             continue
         sig = {"dir": c["dir"], "level": c["level"], "stream": c["stream"], "enc": c["enc"], "rel": c["rel"], "short": c["short"],
                "cache": c["cache"], "comp": c["comp"], "repeat": e["k"] > 1}
+        sig["ctype"] = c["ctype"]
         o = e["o"]
         if c["dir"] == "req":
-            what = ("request %d of a sequence of identical requests (route cache %s): body announced as %s (%s bytes declared, %s sent) with "
+            what = ("request %d of a sequence of identical requests (route cache %s): body (Content-Type class %s) announced as %s (%s bytes declared, %s sent) with "
                     "clientMaxBodySize path=%s server=%s: client got %s, backend contacted=%s, received intact=%s" % (
-                        e["k"], "on" if c["cache"] else "off", c["enc"], e["w"]["declared"], e["w"]["actual"], e["inner"], e["outer"], o["status"],
+                        e["k"], "on" if c["cache"] else "off", c["ctype"], c["enc"], e["w"]["declared"], e["w"]["actual"], e["inner"], e["outer"], o["status"],
                         o["forwarded"], o["intact"]))
         else:
-            what = ("backend response announced as %s (%s bytes declared, %s sent) with serverMaxBodySize pool=%s proxy=%s, proxy compression %s: "
+            what = ("backend response (Content-Type class %s) announced as %s (%s bytes declared, %s sent) with serverMaxBodySize pool=%s proxy=%s, proxy compression %s: "
                     "client got status %s, %s body bytes (Content-Encoding %r), complete=%s, intact=%s" % (
-                        c["enc"], e["w"]["declared"], e["w"]["actual"], e["inner"], e["outer"], "on" if c["comp"] else "off", o["status"],
+                        c["ctype"], c["enc"], e["w"]["declared"], e["w"]["actual"], e["inner"], e["outer"], "on" if c["comp"] else "off", o["status"],
                         o["got"], o.get("label"), o["complete"], o["intact"]))
         ctx.violation(sig, what, {"case": c, "exchange": e})
     if drift:
